@@ -254,6 +254,9 @@ func (s *Sandbox) manifestPut(ls *lua.LState) int {
 	if err != nil {
 		ls.RaiseError("Failed to put manifest: %v", err)
 	}
+	if s.dryRun {
+		return 0
+	}
 
 	err = s.rc.ManifestPut(s.ctx, r.r, m)
 	if err != nil {
